@@ -22,7 +22,7 @@ PID = 'C12'
 PROPS_MODULE = 'SympdeModel.Props.C12'
 GEN = [identity.generate]
 LEANCHECKER = True
-RULE = ('computations = 19 parametrised recipes on the real API (multi-patch domains built directly from interiors + boundaries with patches of different bounds listed in any order: dtype / todict / export-from_file against the recipe\'s own table, joins of patches with symbolic mappings and lowerings on the same objects with / without an earlier join, symmetric products of same-class operands over one function, chains of coordinate operators, catalogue mappings with numeric parameter sets, sums of integrals over different regions in every operand order and association, interface forms with explicit normals / Dn / jump / avg, TerminalExpr of grad/laplace/dot/div/curl/rot, bilinear forms with '
+RULE = ('computations = 21 parametrised recipes on the real API (joins of two squares with catalogue mappings of numeric parameters: the interface mapping / Jacobians / lowered interface kernels after an earlier join under the same names, Domain.corners of nx x ny arrangements of squares under every hash seed, Mapping.constants of catalogue mappings with symbolic parameters, multi-patch domains built directly from interiors + boundaries with patches of different bounds listed in any order: dtype / todict / export-from_file against the recipe\'s own table, joins of patches with symbolic mappings and lowerings on the same objects with / without an earlier join, symmetric products of same-class operands over one function, chains of coordinate operators, catalogue mappings with numeric parameter sets, sums of integrals over different regions in every operand order and association, interface forms with explicit normals / Dn / jump / avg, TerminalExpr of grad/laplace/dot/div/curl/rot, bilinear forms with '
         'domain and boundary integrals, LogicalExpr on plain / polar / identity mapped squares for every space kind, SymbolicExpr, '
         'derivative-index helpers, hodge/d/infere_type on differential forms, Union, Domain.join + todict, Dot/Inner of permuted '
         'operands, Equation with essential BCs, mapped n-cubes) with names drawn from small pools; case = (history of 1-6 '
@@ -184,7 +184,11 @@ def dom_dim(d):
 
 def gen_step(rng, U):
     k = rng.choice(['tgrad', 'tgrad', 'tvec', 'form', 'logical', 'symbolic', 'idxder', 'hodge', 'union', 'join', 'comm',
-                    'equation', 'mapped', 'chain', 'chain', 'amap', 'intsum', 'iface', 'joinlow', 'symprod', 'mpatch'])
+                    'equation', 'mapped', 'chain', 'chain', 'amap', 'intsum', 'iface', 'joinlow', 'symprod', 'mpatch', 'mjoin', 'corners'])
+    if k == 'mjoin':
+        return gen_mjoin(rng, U)
+    if k == 'corners':
+        return gen_corners(rng, U)
     if k == 'mpatch':
         return gen_mpatch(rng, U)
     if k == 'joinlow':
@@ -283,22 +287,83 @@ CATALOGUE = {
 }
 
 
+def fix_params(mcls, params):
+    """numeric parameter sets that give an invertible mapping (only where both numbers are given)"""
+    if mcls == 'PolarMapping' and 'rmax' in params and 'rmin' in params and params['rmax'] <= params['rmin']:
+        params['rmax'] = params['rmin'] + 2
+    if mcls == 'AffineMapping' and all(k in params for k in ('a11', 'a12', 'a21', 'a22')) \
+            and params['a11'] * params['a22'] == params['a12'] * params['a21']:
+        params['a22'] += 1
+    return params
+
+
 def gen_amap(rng, U):
-    """a catalogue mapping with a random numeric parameter set, applied to a square"""
+    """a catalogue mapping with a random parameter set - numeric, or (one case in four) with some or all parameters left
+    symbolic, so that the mapping has `constants` - applied to a square"""
     mname = rng.choice(POOLS['mapping'])
 
     def gen():
         mcls = rng.choice(['AffineMapping', 'AffineMapping', 'PolarMapping', 'PolarMapping', 'TargetMapping'])
-        return [mcls, {k: rng.choice(v) for k, v in sorted(CATALOGUE[mcls].items())}]
+        params = {k: rng.choice(v) for k, v in sorted(CATALOGUE[mcls].items())}
+        if rng.random() < 0.25:
+            keys = sorted(params)
+            for k in (keys if rng.random() < 0.4 else rng.sample(keys, rng.randint(1, len(keys)))):
+                del params[k]
+        return [mcls, params]
     mcls, params = U.pick('amap', mname, gen)
-    if mcls == 'PolarMapping' and params['rmax'] <= params['rmin']:
-        params['rmax'] = params['rmin'] + 2
-    if mcls == 'AffineMapping' and params['a11'] * params['a22'] == params['a12'] * params['a21']:
-        params['a22'] += 1
+    fix_params(mcls, params)
     d = U.dom(shape='cube', dims=(2,))
     sp = U.space(False, d)
-    return {'r': 'amap', 'p': {'mcls': mcls, 'mname': mname, 'params': params, 'dom': d, 'sp': sp,
-                               'fn': U.fn(False, sp, d), 'op': rng.choice(['dx', 'dx', 'dy'])}}
+    p = {'mcls': mcls, 'mname': mname, 'params': params, 'dom': d, 'sp': sp,
+         'fn': U.fn(False, sp, d), 'op': rng.choice(['dx', 'dx', 'dy'])}
+    if len(params) < len(CATALOGUE[mcls]) and (mcls != 'AffineMapping' or rng.random() < 0.5):
+        p['lower'] = False        # lowering through symbolic parameters costs 10 s and more without the cache
+    return {'r': 'amap', 'p': p}
+
+
+MJ_CATALOGUE = {k: CATALOGUE[k] for k in ('AffineMapping', 'PolarMapping', 'TargetMapping')}
+
+
+def gen_mjoin(rng, U, lower=None):
+    """two squares side by side, each mapped by its own catalogue mapping (numeric parameters), joined: what the interface
+    knows of the geometry and (lower) the kernels of an interface form; added after seed C12-9"""
+    # (in a consistent universe the patch names are the recipe's own: 'A' is a 1-3 D cube elsewhere)
+    names = ['Am', 'Bm'] if U is not None and U.consistent else rng.choice([['A', 'B'], ['A', 'B'], ['P0', 'P1']])
+    mnames = rng.sample(['F1', 'F2', 'M', 'N'], 2)
+    maps = []
+    for mn in mnames:
+        def gen():
+            mcls = rng.choice(['AffineMapping', 'AffineMapping', 'AffineMapping', 'PolarMapping', 'TargetMapping'])
+            return [mcls, fix_params(mcls, {k: rng.choice(v) for k, v in sorted(MJ_CATALOGUE[mcls].items())})]
+        mcls, params = U.pick('amap', mn, gen) if U is not None else gen()
+        if len(params) < len(MJ_CATALOGUE[mcls]):          # the name denotes a mapping with symbolic parameters (amap)
+            params = fix_params(mcls, dict({k: v[0] for k, v in MJ_CATALOGUE[mcls].items()}, **params))
+            if U is not None and U.consistent:
+                mn = mn + 'j'
+        maps.append([mn, mcls, params])
+    own = '_mj' if U is not None and U.consistent else ''
+    return {'r': 'mjoin', 'p': {'names': names, 'name': rng.choice(POOLS['domain']) + own, 'amaps': maps, 'sp': rng.choice(POOLS['space']),
+                                'fn': rng.choice(POOLS['function']), 'bil': rng.choice(['jj', 'jj', 'aj']),
+                                'lower': (rng.random() < 0.6) if lower is None else lower}}
+
+
+GRIDS = [[2, 2], [2, 2], [2, 1], [1, 2], [3, 1], [3, 2], [2, 3]]
+
+
+def gen_corners(rng, U):
+    """an nx x ny arrangement of unit squares joined along all inner edges; result = Domain.corners (printed, members,
+    structure) - the walk around a vertex goes through sets, so the hash seed must not show; added after seed C12-10"""
+    grid = U.pick('cgrid', 0, lambda: rng.choice(GRIDS))
+    n = grid[0] * grid[1]
+    pool = rng.choice([['A0', 'A1', 'A2', 'A3', 'A4', 'A5'], ['Q0', 'Q1', 'Q2', 'Q3', 'Q4', 'Q5'], ['zc', 'za', 'ze', 'zb', 'zf', 'zd']])
+    names = U.pick('cnames', pool[0], lambda: pool[:n])
+    p = {'grid': grid, 'names': names, 'name': rng.choice(POOLS['domain']) + ('_cg' if U.consistent else '')}
+    nconn = grid[0] * (grid[1] - 1) + grid[1] * (grid[0] - 1)
+    if rng.random() < 0.5:
+        p['corder'] = rng.sample(range(nconn), nconn)
+    if rng.random() < 0.5:
+        p['porder'] = rng.sample(names, n)
+    return {'r': 'corners', 'p': p}
 
 
 IFACE_BIL = ['jn_jdn', 'jj', 'adn_j', 'mp', 'jn_a', 'fn_gn', 'dn_n']
@@ -401,6 +466,10 @@ def perturb(rng, step):
             opts += ['k', 'n']
         if st['r'] == 'amap':
             opts = ['mparams', 'mparams', 'mparams', 'lo', 'kind']
+        if st['r'] == 'mjoin':
+            opts = ['jparams', 'jparams', 'jparams', 'jclass']
+        if st['r'] == 'corners':
+            opts = ['grid']
         if 'dim' in p:
             opts.append('pdim')
         if st['r'] == 'mpatch':
@@ -423,13 +492,35 @@ def perturb(rng, step):
             kinds = ['h1', 'hcurl', 'hdiv', 'l2', None] if p['sp'][0] == 'V' else ['h1', None, 'l2']
             p['sp'][2] = rng.choice([x for x in kinds if x != p['sp'][2]])
         elif o == 'mparams':
-            # the same class and name, another numeric parameter set
-            for k in rng.sample(sorted(p['params']), rng.randint(1, len(p['params']))):
-                p['params'][k] = rng.choice([x for x in CATALOGUE[p['mcls']][k] if x != p['params'][k]])
-            if p['mcls'] == 'PolarMapping' and p['params']['rmax'] <= p['params']['rmin']:
-                p['params']['rmax'] = p['params']['rmin'] + 2
-            if p['mcls'] == 'AffineMapping' and p['params']['a11'] * p['params']['a22'] == p['params']['a12'] * p['params']['a21']:
-                p['params']['a22'] += 1
+            # the same class and name, another parameter set (other numbers; now and then numeric <-> symbolic)
+            cat = CATALOGUE[p['mcls']]
+            for k in rng.sample(sorted(cat), rng.randint(1, len(cat))):
+                if k in p['params'] and rng.random() < 0.15:
+                    del p['params'][k]
+                    p['lower'] = False
+                else:
+                    p['params'][k] = rng.choice([x for x in cat[k] if x != p['params'].get(k)])
+            fix_params(p['mcls'], p['params'])
+        elif o in ('jparams', 'jclass'):
+            # the same patch, mapping and domain names; other parameters (or another class) for one or both mappings
+            for m in rng.sample(p['amaps'], rng.choice([1, 2])):
+                if o == 'jclass':
+                    m[1] = rng.choice([c for c in sorted(MJ_CATALOGUE) if c != m[1]])
+                    m[2] = {k: rng.choice(v) for k, v in sorted(MJ_CATALOGUE[m[1]].items())}
+                else:
+                    for k in rng.sample(sorted(m[2]), rng.randint(1, len(m[2]))):
+                        m[2][k] = rng.choice([x for x in MJ_CATALOGUE[m[1]][k] if x != m[2][k]])
+                fix_params(m[1], m[2])
+        elif o == 'grid':
+            # the same patch names in another arrangement
+            n = p['grid'][0] * p['grid'][1]
+            alt = [g for g in GRIDS if g[0] * g[1] == n and g != p['grid']]
+            if alt:
+                p['grid'] = rng.choice(alt)
+                p.pop('corder', None)
+            elif p.get('porder'):
+                p['names'] = list(reversed(p['names']))
+                p['porder'] = list(reversed(p['porder']))
         elif o == 'cellbounds':
             # the same patch names, other bounds for one of them
             c = rng.choice([c for c in p['cells'] if c[1] is not None] or [None])
@@ -473,13 +564,17 @@ def rename(step, classes, suffix):
             p['name'] += suffix
     if 'names' in p and 'domain' in classes:
         p['names'] = [n + suffix for n in p['names']]
-        if st.get('r') in ('iface', 'joinlow'):
+        if 'porder' in p:
+            p['porder'] = [n + suffix for n in p['porder']]
+        if st.get('r') in ('iface', 'joinlow', 'mjoin', 'corners'):
             p['name'] += suffix
     if 'cells' in p and 'domain' in classes:
         p['cells'] = [[c[0] + suffix, c[1]] for c in p['cells']]
         p['name'] += suffix
     if 'maps' in p and 'mapping' in classes:
         p['maps'] = [m + suffix for m in p['maps']]
+    if 'amaps' in p and 'mapping' in classes:
+        p['amaps'] = [[m[0] + suffix] + m[1:] for m in p['amaps']]
     if 'space' in classes:
         if isinstance(p.get('sp'), list):
             p['sp'][1] += suffix
@@ -602,8 +697,15 @@ def named(st):
         dom(d)
     if 'patches' in p:
         out['domain'][p['name']] = ('joined', json.dumps(p['patches']), json.dumps(p['conns']))
-    for n in p.get('names', []):
-        out['domain'][n] = ('interior', p['dim'])
+    for i, n in enumerate(p.get('names', [])):
+        out['domain'][n] = ('interior', p.get('dim', 2))
+        if 'grid' in p:
+            x, y = i % p['grid'][0], i // p['grid'][0]
+            out['domain'][n] = ('cell', 2, json.dumps([[x, x + 1], [y, y + 1]]))
+    if 'grid' in p:
+        out['domain'][p['name']] = ('grid', json.dumps(p['grid']), json.dumps(p['names']))
+    for m_ in p.get('amaps', []):
+        out['mapping'][m_[0]] = (m_[1], 2, json.dumps(m_[2], sort_keys=True))
     for c in p.get('cells', []):
         out['domain'][c[0]] = ('cell', p['pdim'], json.dumps(c[1]))
     if 'cells' in p:
@@ -665,6 +767,10 @@ def check_case(o, farm, hist, final, mode, rng, clears=True, label=None):
     alone = farm.map(servers[1:], [final])
     for sv, out in zip(servers[1:], alone):
         o.count('alone:seed/cache')
+        if out[0].get('bad') and view(out[0]) == ref:
+            o.fail('inconsistent:%s' % (label or fs), 'in a fresh interpreter the result of %s is not consistent with its inputs: %s'
+                   % (fs, out[0]['bad']), step=fs)
+            return
         if view(out[0]) != ref:
             what = 'PYTHONHASHSEED=%s' % sv.seed if sv.cache else 'SYMPY_USE_CACHE=no'
             o.fail('config:%s:%s' % ('seed' if sv.cache else 'cache-off', label or fs),
@@ -765,6 +871,9 @@ def check_order(o, farm, st, rng):
 
 _AMAP = lambda rmin, rmax: {'r': 'amap', 'p': {'mcls': 'PolarMapping', 'mname': 'F', 'params': {'c1': 0, 'c2': 0, 'rmin': rmin, 'rmax': rmax},
                                                'dom': ['cube', 'A', 2, 0], 'sp': ['S', 'V', None], 'fn': 'u', 'op': 'dx'}}
+_AFF = lambda n, a, b: [n, 'AffineMapping', {'c1': 0, 'c2': 0, 'a11': a, 'a12': 0, 'a21': 0, 'a22': b}]
+_MJOIN = lambda a, b, lower: {'r': 'mjoin', 'p': {'names': ['A', 'B'], 'name': 'Omega', 'amaps': [_AFF('F1', a, b), _AFF('F2', a, b)],
+                                                  'sp': 'V', 'fn': 'u', 'bil': 'jj', 'lower': lower}}
 FIXED_ORDER = [
     # sums of integrals over different regions (seed C12-4): 2 terms, and 2+1 / 1+2 association
     {'r': 'intsum', 'p': {'dom': ['cube', 'Omega', 2, 0], 'sp': ['S', 'V', None], 'fn': 'u', 'regions': [0, 2], 'shape': 'left'}},
@@ -830,6 +939,14 @@ FIXED = [
     # seed C12-8: the same patch names with each other's bounds before, non-sorted supply (label = stable key)
     ('inconsistent:mpatch-unsorted', [{'r': 'mpatch', 'p': {'name': 'D', 'pdim': 2, 'cells': [['A', _SQ(1, 3, 2)], ['B', _SQ(0, 1, 1)]]}}],
      {'r': 'mpatch', 'p': {'name': 'D', 'pdim': 2, 'cells': [['B', _SQ(1, 3, 2)], ['A', _SQ(0, 1, 1)]]}}, 'reuse'),
+    # seed C12-9: an earlier join of equally named faces of differently mapped patches (constructed only) must not reach
+    # the interface of a later join: its minus / plus mappings, Jacobians and the lowered kernel of jump(u)*jump(v)
+    ('name-reuse:mapping-parameters', [_MJOIN(2, 2, False)], _MJOIN(3, 5, True), 'reuse'),
+    # seed C12-10: Domain.corners of a 2 x 2 arrangement of squares under every hash seed (label = stable key)
+    ('config:seed:corners-2x2', [], {'r': 'corners', 'p': {'grid': [2, 2], 'names': ['A0', 'A1', 'A2', 'A3'], 'name': 'D'}}, 'same'),
+    # fixed by eb4ed64: Mapping.constants of a mapping with symbolic parameters was list(set(...)), ordered by the hash seed
+    ('config:seed:mapping-constants', [], {'r': 'amap', 'p': {'mcls': 'AffineMapping', 'mname': 'F', 'params': {}, 'lower': False,
+                                                              'dom': ['cube', 'A', 2, 0], 'sp': ['S', 'V', None], 'fn': 'u', 'op': 'dx'}}, 'same'),
     ('history-leak', [{'r': 'idxmut', 'p': {'dom': ['abs', 'Omega', 2], 'sp': ['S', 'V', None], 'fn': 'u'}}],
      {'r': 'idxder', 'p': {'dom': ['abs', 'Omega', 2], 'sp': ['S', 'V', None], 'fn': 'u'}}, 'same'),
 ]
@@ -863,6 +980,13 @@ def oracle(ctx, factor, seeds):
                 o.count('reuse:targeted')
             elif mode == 'same' and rng.random() < 0.5:
                 hist.insert(rng.randint(0, len(hist)), copy.deepcopy(final))     # the very same computation before
+            if mode == 'reuse':
+                # an earlier LOWERING on a joined domain of the same patch and mapping names already reaches the final one on the
+                # unchanged tree (open finding C12-domain-identity-by-name, through the patches 'F(A)' identified by name):
+                # under free reuse of names the earlier joined geometries are only constructed, so that the check sees past it
+                for st in hist:
+                    if st['r'] == 'mjoin':
+                        st['p']['lower'] = False
             if mode == 'hygienic':
                 hist = [rename(st, CLASSES, '_h%d' % k) for k, st in enumerate(hist)]
             o.evaluations += 1
